@@ -1,3 +1,5 @@
+import RtenVerif.Model.Utf8
+
 /-
 Model of the byte-level BPE path of `rten-text`:
 `models/bpe.rs` (`is_printable`, `byte_to_char`, `char_to_byte`, `build_merge_map`, `Bpe::new`,
@@ -15,7 +17,8 @@ hash map (distinct strings).
 replacement, repeat) with fuel = number of tokens; its refinement to the in-place loop and its
 termination are C28's subject.
 
-Import-free (core Lean only) so that it links into the `model_C27` driver.
+Core Lean only (plus the equally import-free `Model/Utf8.lean`) so that it links into the
+`model_C27` driver.
 -/
 namespace RtenVerif.ByteBpe
 
@@ -186,6 +189,21 @@ def decodeIds (t : Bpe) : List Nat → DecodeResult
       | e => e
     | e => e
 
+/-- Result of `Bpe::decode` / `Tokenizer::decode`. -/
+inductive DecodeOut
+  | ok (bytes : List Nat)
+  | invalidId
+  | invalidUtf8
+  | panic
+  deriving DecidableEq, Repr
+
+/-- `Bpe::decode`: the token loop followed by `String::from_utf8(bytes)`. -/
+def decode (t : Bpe) (ids : List Nat) : DecodeOut :=
+  match decodeIds t ids with
+  | .ok bs => if Utf8.valid bs then .ok bs else .invalidUtf8
+  | .invalidId => .invalidId
+  | .panic => .panic
+
 /-! ### `Tokenizer::encode` (single sequence, no chunking, no CLS/SEP) -/
 
 /-- `&text[a..b]` on bytes. -/
@@ -233,12 +251,5 @@ def tokenTexts (src : List Nat) : List Nat → List (Option (List Nat))
   | [_] => []
   | a :: b :: rest =>
     (if a ≤ b ∧ b ≤ src.length then some (slice src a b) else none) :: tokenTexts src (b :: rest)
-
-/-- `str::is_char_boundary` on UTF-8 bytes. -/
-def isBoundary (bytes : List Nat) (p : Nat) : Bool :=
-  p == 0 || p == bytes.length ||
-    match bytes[p]? with
-    | some b => b < 0x80 || 0xC0 ≤ b
-    | none => false
 
 end RtenVerif.ByteBpe
